@@ -20,6 +20,28 @@ gc.disable()
 
 
 def guarded_check(solver, timeout_ms):
+    """_guarded_check, asked again when the answer is a stale cancellation: z3's own timeout timer of an EARLIER
+    query can fire late and cancel whatever runs next in the same context, which then returns `unknown
+    (canceled)` at once (observed: a 0.03 s obligation reported unknown; the invariant engine dropping whole
+    clause sets).  An `unknown` that says "canceled" long before this query's own budget is used up is not an
+    answer to this query."""
+    import time as _t
+    for attempt in range(4):
+        t0 = _t.time()
+        r = _guarded_check(solver, timeout_ms)
+        if r != z3.unknown:
+            return r
+        try:
+            why = solver.reason_unknown()
+        except z3.Z3Exception:
+            why = ""
+        if "cancel" not in why or (_t.time() - t0) * 1000.0 > 0.5 * timeout_ms:
+            return r
+        _t.sleep(0.02 * (attempt + 1))
+    return r
+
+
+def _guarded_check(solver, timeout_ms):
     """solver.check() with a hard wall-clock guard: z3's own timeout is not always honoured by the
     sequence solver, so a watchdog thread interrupts the context.  The interrupt is only ever sent
     while the check is running (lock), and after one was sent the context's cancel flag is cleared
@@ -71,21 +93,27 @@ def _has_quantifier(e):
 _str_memo = {}
 
 
-def _mentions_strings(e):
-    k = e.get_id()
+def _mentions_strings(e, hard=False):
+    """does the term contain a string/regex term (hard=False), or anything outside quantifier-free
+    Bool/Int/Real with uninterpreted functions (hard=True)"""
+    k = (e.get_id(), hard)
     if k in _str_memo:
         return _str_memo[k]
     stack, seen, r = [e], set(), False
+    easy = (z3.Z3_BOOL_SORT, z3.Z3_INT_SORT, z3.Z3_REAL_SORT)
     while stack:
         x = stack.pop()
         if x.get_id() in seen:
             continue
         seen.add(x.get_id())
         if z3.is_quantifier(x):
+            if hard:
+                r = True
+                break
             stack.append(x.body())
             continue
         so = x.sort()
-        if so.kind() in (z3.Z3_SEQ_SORT, z3.Z3_RE_SORT):
+        if so.kind() in (z3.Z3_SEQ_SORT, z3.Z3_RE_SORT) or (hard and so.kind() not in easy):
             r = True
             break
         stack.extend(x.children())
@@ -97,18 +125,18 @@ _BOOL_OPS = (z3.Z3_OP_AND, z3.Z3_OP_OR, z3.Z3_OP_NOT, z3.Z3_OP_IMPLIES, z3.Z3_OP
              z3.Z3_OP_IFF, z3.Z3_OP_DISTINCT)
 
 
-def _abstract_strings(e, memo):
+def _abstract_strings(e, memo, hard=False):
     """propositional abstraction: every atom that mentions a string/sequence term becomes a fresh Bool (the same
     atom -> the same Bool).  Every model of the original is a model of the abstraction, so `unsat` carries over;
     a spurious `sat` only makes the caller drop clauses it could have kept."""
     k = e.get_id()
     if k in memo:
         return memo[k]
-    if not _mentions_strings(e):
+    if not _mentions_strings(e, hard):
         r = e
     elif z3.is_app(e) and z3.is_bool(e) and e.decl().kind() in _BOOL_OPS and \
             all(z3.is_bool(c) for c in e.children()):
-        r = e.decl()(*[_abstract_strings(c, memo) for c in e.children()])
+        r = e.decl()(*[_abstract_strings(c, memo, hard) for c in e.children()])
     elif z3.is_bool(e):
         r = z3.Bool(f"abs!{k}")
     else:
@@ -193,7 +221,7 @@ class Ctx:
                 a.pop()
             if ra == z3.unsat:
                 return False
-            tmo = getattr(self, "real_timeout_ms", 600)
+            tmo = getattr(self, "real_timeout_ms", self.branch_timeout_ms)
         import time as _t
         t0 = _t.time()
         try:
